@@ -119,7 +119,8 @@ func c02Verify(c *Ctx) {
 	} else {
 		r.Unk("R-C02.1", "tls.standardTlsConfig verifyOpts.Roots", p.Pos(std.Pos()), "closure does not capture verifyOpts")
 	}
-	cs := paramRoot(clo.Params[0])
+	csParam, csSpill := ssa.Value(clo.Params[0]), paramRoot(clo.Params[0])
+	isCs := func(v ssa.Value) bool { return v == csParam || v == csSpill }
 	isLeaf := func(v ssa.Value) bool {
 		u, ok := isDeref(core.Strip(v))
 		if !ok {
@@ -131,7 +132,7 @@ func c02Verify(c *Ctx) {
 		}
 		k, isK := core.ConstInt(ia.Index)
 		sp := core.PathOf(ia.X)
-		return isK && k == 0 && sp.Root == cs && sp.HasFields("PeerCertificates")
+		return isK && k == 0 && isCs(sp.Root) && sp.HasFields("PeerCertificates")
 	}
 	waiver := core.Guard{Name: "opts.WithAlpnProtoPrefix == fetch prefix", Match: func(cond ssa.Value) (int, bool) {
 		bo, ok := cond.(*ssa.BinOp)
@@ -152,7 +153,7 @@ func c02Verify(c *Ctx) {
 		return 1, true
 	}}
 	gs := []core.Guard{
-		core.NonEmpty("cs.PeerCertificates", core.FieldOf(cs, "PeerCertificates")),
+		core.NonEmpty("cs.PeerCertificates", func(pp core.Path) bool { return isCs(pp.Root) && pp.HasFields("PeerCertificates") }),
 		core.AnyOf("fetch waiver or leaf.Verify(verifyOpts) succeeded", waiver,
 			core.ErrNil("leaf.Verify(verifyOpts)", func(x *ssa.Call) bool {
 				if core.CalleeName(x.Common()) != "(*crypto/x509.Certificate).Verify" {
